@@ -18,6 +18,9 @@ cDqPrefix2 == <<cTAB, "a", " ", " ">>
 \* inside a double-quoted string, at the start of its first continuation line
 cDqPrefix3 == <<"a", " ", cDQ, cLF>>
 cPatPrefix == <<"p","a","t","t","e","r","n"," ">>
+\* inside the block of a pattern statement: the next argument is not a pattern argument
+cPatBlkPrefix == <<"p","a","t","t","e","r","n"," ",cDQ,"x",cDQ," ","{","k"," ">>
+cPatBlkSuffix == <<";","}">>
 cCmtPrefix == <<"a", " ", "/", "*", "*", "/", " ">>
 cSqPrefix == <<"a", " ", cSQ, "q", cSQ, "+">>
 cMbPrefix == <<"E", " ", "/", "*", "E", cLF, "*", "/", cSQ, "E", cLF, cSQ, cTAB>>
